@@ -296,8 +296,10 @@ func (e *Effects) compute(s slot) (bool, string, token.Pos) {
 }
 
 func isLocalCell(addr ssa.Value) bool {
+	// the variable's own cell — also when it was moved to the heap because a function literal
+	// captures the variable: assigning the variable is not a write through what it holds
 	a, ok := addr.(*ssa.Alloc)
-	return ok && !a.Heap
+	return ok && (!a.Heap || (a.Comment != "" && a.Comment != "new" && a.Comment != "complit" && a.Comment != "makeslice" && a.Comment != "slicelit" && a.Comment != "varargs"))
 }
 
 func (e *Effects) callEffect(s slot, ci ssa.CallInstruction) (bool, string, token.Pos) {
